@@ -7,7 +7,6 @@ import (
 	"golang.org/x/tools/go/ssa"
 	"encoding/json"
 	"fmt"
-	"go/token"
 	"go/types"
 	"sort"
 
@@ -393,37 +392,3 @@ func init() {
 	}
 }
 
-func init() {
-	// blocking: blocking channel operations and the locks that may be held there
-	debugHooks["blocking"] = func(p *ir.Program) {
-		c := &Ctx{P: p, R: report.New("DBG", "quick")}
-		a := c.lockAnalysis()
-		for _, fn := range p.FuncsIn("pkg/server", "internal/pkg/table") {
-			for _, b := range fn.Blocks {
-				for _, in := range b.Instrs {
-					kind := ""
-					switch x := in.(type) {
-					case *ssa.Send:
-						kind = "send"
-					case *ssa.Select:
-						if x.Blocking {
-							kind = "select"
-						}
-					case *ssa.UnOp:
-						if x.Op == token.ARROW {
-							kind = "recv"
-						}
-					}
-					if kind == "" {
-						continue
-					}
-					may, must, reached := a.At(in)
-					if !reached || len(may) == 0 {
-						continue
-					}
-					fmt.Printf("%s %s %s may=%s must=%s\n", kind, p.InstrPos(in), ir.FuncKey(fn), may, must)
-				}
-			}
-		}
-	}
-}
